@@ -40,6 +40,7 @@ type Prog struct {
 	extImpure  map[*ssa.Function]bool            // calls (transitively) an external function that is not in the effect-free table
 
 	noExpand    map[*ssa.Function]bool // functions whose (value, error) results keep their call atoms
+	storedFields map[*types.Var]bool // neverStoredFuncField: fields some function stores to
 	nonNilPtr   types.Type             // anchors: *NodeGroupState — parameters and scaleOpts fields of this type are never nil (reviewed)
 	keepCalls   map[*ssa.Function]bool // anchors: their calls are never replaced by the returned expression (nil until anchors are resolved)
 	implCache   map[string][]*ssa.Function
@@ -438,6 +439,52 @@ func (p *Prog) calleesOf(call ssa.CallInstruction) []*ssa.Function {
 // funcValuesOf: repo functions a value may denote when passed to a library function.
 // staticSitesOf: the static call sites of fn in shipped code; for a generic function, the calls of
 // its instantiations (go/ssa analyses the generic body once, the callers call the instances).
+// neverStoredFuncField: f is a function-typed field of a structure declared in shipped code and no
+// function of the program (shipped or not: tests are not loaded) stores to it — not by assignment,
+// not in a composite literal. Such a seam is nil in the running program.
+func (p *Prog) neverStoredFuncField(f *types.Var) bool {
+	if f == nil || !f.IsField() || f.Pkg() == nil || !p.Shipped[f.Pkg().Path()] {
+		return false
+	}
+	if _, isSig := f.Type().Underlying().(*types.Signature); !isSig {
+		return false
+	}
+	if p.storedFields == nil {
+		p.storedFields = map[*types.Var]bool{}
+		for fn := range ssautil.AllFunctions(p.SSA) {
+			for _, b := range fn.Blocks {
+				for _, in := range b.Instrs {
+					if st, ok := in.(*ssa.Store); ok {
+						if fv := fieldOfAddr(st.Addr); fv != nil {
+							p.storedFields[fv] = true
+						}
+						// a whole structure value stored or copied may carry the field
+						if sv, ok := st.Val.Type().Underlying().(*types.Struct); ok {
+							if _, zero := st.Val.(*ssa.Const); !zero {
+								for i := 0; i < sv.NumFields(); i++ {
+									if _, isSig := sv.Field(i).Type().Underlying().(*types.Signature); isSig {
+										// copies of an existing structure (a load, a value parameter, a merge,
+										// a component) create nothing; what a call hands back may be anything
+										isCopy := false
+										switch st.Val.(type) {
+										case *ssa.UnOp, *ssa.Parameter, *ssa.FreeVar, *ssa.Phi, *ssa.Field, *ssa.Index, *ssa.Lookup:
+											isCopy = true
+										}
+										if !isCopy {
+											p.storedFields[sv.Field(i)] = true
+										}
+									}
+								}
+							}
+						}
+					}
+				}
+			}
+		}
+	}
+	return !p.storedFields[f]
+}
+
 func (p *Prog) staticSitesOf(fn *ssa.Function) []ssa.CallInstruction {
 	var out []ssa.CallInstruction
 	for _, f := range p.Funcs {
